@@ -97,6 +97,22 @@ func (p *Plenc) CodecForTypeWithTag(typ reflect.Type, tag string) (plenccodec.Co
 	return p.CodecForTypeRegistry(&p.codecRegistry, typ, tag)
 }
 
+// refersToItself is true for types like "type P *P" or "type S []S": following
+// pointer and slice element types leads round in a circle without ever
+// reaching a struct. Only a struct can be built in two steps, so building a
+// codec for such a type would recurse forever
+func refersToItself(typ reflect.Type) bool {
+	seen := map[reflect.Type]struct{}{}
+	for k := typ.Kind(); k == reflect.Ptr || k == reflect.Slice; k = typ.Kind() {
+		if _, ok := seen[typ]; ok {
+			return true
+		}
+		seen[typ] = struct{}{}
+		typ = typ.Elem()
+	}
+	return false
+}
+
 // CodecForTypeRegistry builds a new codec for the requested type, consulting
 // registry for any existing codecs needed
 func (p *Plenc) CodecForTypeRegistry(registry plenccodec.CodecRegistry, typ reflect.Type, tag string) (plenccodec.Codec, error) {
@@ -109,6 +125,9 @@ func (p *Plenc) CodecForTypeRegistry(registry plenccodec.CodecRegistry, typ refl
 
 	switch typ.Kind() {
 	case reflect.Ptr:
+		if refersToItself(typ) {
+			return nil, fmt.Errorf("type %s refers to itself without a struct in between and cannot be encoded", typ)
+		}
 		if typ.Elem().Kind() == reflect.Map {
 			return nil, fmt.Errorf("pointers to maps are not supported")
 		}
@@ -136,6 +155,9 @@ func (p *Plenc) CodecForTypeRegistry(registry plenccodec.CodecRegistry, typ refl
 		}
 
 	case reflect.Slice:
+		if refersToItself(typ) {
+			return nil, fmt.Errorf("type %s refers to itself without a struct in between and cannot be encoded", typ)
+		}
 		subt := typ.Elem()
 		if subt.Kind() == reflect.Map {
 			return nil, fmt.Errorf("slices of maps are not supported")
